@@ -231,7 +231,25 @@ fn collect_flow_count_flags_from_nodes(nodes: &[Node], targets: &mut BTreeMap<St
                         collect_flow_count_flags_from_expr(e, targets);
                     }
                 }
+                // Read counts and TURNS_SINCE written in the choice's own line of text.
+                for text in [
+                    Some(&choice.start_text),
+                    Some(&choice.choice_only_text),
+                    choice.selected_text.as_ref(),
+                ]
+                .into_iter()
+                .flatten()
+                {
+                    if let Ok(text_nodes) = tokenize_inline_content(text) {
+                        collect_flow_count_flags_from_nodes(&text_nodes, targets);
+                    }
+                }
                 collect_flow_count_flags_from_nodes(&choice.body, targets);
+            }
+            Node::Sequence(sequence) => {
+                for branch in &sequence.branches {
+                    collect_flow_count_flags_from_nodes(branch, targets);
+                }
             }
             Node::Conditional {
                 condition,
